@@ -127,4 +127,21 @@ def run_case(c):
         PT = Vp.conj().T @ A @ Vp
         if not oracle.close(PT, T, scale=sc, tol=1e-9):
             fail('projection', f'{tag}: |V^H A V - T| on the leading {p}x{p} part = {np.linalg.norm(PT - T)} (|A| = {nA})')
+    # history: a result must not change when the routine is called again with arguments of the same size (second call)
+    if not fails:
+        fnc = krylov.lanczos_iteration if c['kind'] == 'lanczos' else krylov.arnoldi_iteration
+        m0 = min(3, n)
+        try:
+            with warnings.catch_warnings():
+                warnings.simplefilter('ignore')
+                first = fnc(Afunc, v, m0)
+                snap = [np.array(x, copy=True) for x in first]
+                v2 = (rng.standard_normal(n) + (0 if c['vreal'] else 1j * rng.standard_normal(n))).astype(np.asarray(v).dtype)
+                if np.linalg.norm(v2) > 0:
+                    fnc(Afunc, v2, m0)
+            if not all(a.shape == b.shape and np.array_equal(a, b, equal_nan=True) for a, b in zip(first, snap)):
+                fail('result_unchanged_by_later_call', f'n={n} m={m0}: the arrays returned by the first call changed during a second call of the same size')
+        except Exception as e:
+            if type(e).__name__ == 'CaseTimeout':
+                raise
     return dict(failures=fails, nontrivial=n >= 2, key=json.dumps(c, sort_keys=True))
